@@ -68,7 +68,8 @@ extern "C" void harness(void)
 	CK_RV rv = hsm->C_VerifyFinal(hS, pOut, outLen); k.expectOp = SESSION_OP_VERIFY; k.finishing = true; k.hasOut = false;
 #elif FN == 15   // C_FindObjects: the find operation object may be absent (C_FindObjectsInit failed after setting the operation type)
 	static CK_OBJECT_HANDLE got[4]; CK_ULONG n = 99; s->findOp = nondet_bool() ? FindOperation::create() : (FindOperation*)0;
-	CK_RV rv = hsm->C_FindObjects(hS, nondet_bool() ? got : NULL, nondet_uchar() % 4, nondet_bool() ? &n : NULL); k.expectOp = SESSION_OP_FIND; k.hasOut = false;
+	bool nullGot_ = !nondet_bool(); CK_ULONG max_ = nondet_uchar() % 4; bool nullN_ = !nondet_bool();      // (one nondet input per statement: argument evaluation order differs between clang and g++)
+	CK_RV rv = hsm->C_FindObjects(hS, nullGot_ ? NULL : got, max_, nullN_ ? NULL : &n); k.expectOp = SESSION_OP_FIND; k.hasOut = false;
 	if (rv == CKR_OK) { vassert(hS == env.hSession && op0 == SESSION_OP_FIND && s->findOp != 0 && n == 0); vreach(); }
 #elif FN == 16
 	s->findOp = nondet_bool() ? FindOperation::create() : (FindOperation*)0;
